@@ -174,6 +174,10 @@ type AnalyzedFnParam struct {
 }
 
 func (self AnalyzedFnParam) String() string {
+	// A singleton extraction must stay a reference to the singleton (callers do not pass this parameter).
+	if self.IsSingletonExtractor {
+		return fmt.Sprintf("%s: %s", self.Ident, self.SingletonIdent)
+	}
 	return fmt.Sprintf("%s: %s", self.Ident, self.Type)
 }
 
